@@ -179,6 +179,7 @@ func runC01(p *P, r *R) {
 	borrow(p, r, "C03", runC03, map[string]string{"R03.1": "R01.11", "R03.2": "R01.11"}, func(o Ob) bool {
 		return constructHas(o, "free-list header", "slot header", "(bufferHeader)", "stride", "initial tail", "newBufferSlice")
 	})
+	c01FreshMemory(p, r, fr)
 	abaRule(p, r, "R01.9")
 	// R01.10 nobody but the holder touches a slot header: a chain walker does not use a slice's header after it gave the slice back
 	linkReadBeforeRecycle(p, r, "R01.10")
@@ -540,4 +541,73 @@ func abaRule(p *P, r *R, rule string) {
 		}
 	}
 	r.count(rule, "head CAS sites that install a successor read through the expected-old value", n, 1)
+}
+
+// c01FreshMemory (R01.12): the creator role initialises the control words with plain stores, so it may only ever run on
+// memory nobody else has mapped yet: in every function that maps memory and (transitively) runs a creator, each
+// branch-consistent path from the entry to the creating call passes an exclusive creation of the backing object
+// (os.OpenFile with O_CREATE|O_EXCL, or a fresh memfd). A creator run on a live region hands every held buffer out again.
+func c01FreshMemory(p *P, r *R, fr freeListRoles) {
+	var names []string
+	for _, c := range fr.creators {
+		names = append(names, p.fname(c))
+	}
+	if len(names) == 0 {
+		return // R01.1's role floor reports the missing creator
+	}
+	mCreator := p.mCall(names...)
+	oExcl, oCreate := int64(-1), int64(-1)
+	for _, imp := range p.TPkg.Imports() {
+		if imp.Path() == "os" {
+			for nm, dst := range map[string]*int64{"O_EXCL": &oExcl, "O_CREATE": &oCreate} {
+				if c, ok := imp.Scope().Lookup(nm).(*types.Const); ok {
+					if v, okv := constant.Int64Val(constant.ToInt(c.Val())); okv {
+						*dst = v
+					}
+				}
+			}
+		}
+	}
+	if oExcl <= 0 || oCreate <= 0 {
+		r.fail("R01.12", "constants os.O_EXCL / os.O_CREATE", "", "not resolved")
+		return
+	}
+	fresh := func(in ssa.Instruction) bool {
+		c, ok := in.(*ssa.Call)
+		if !ok {
+			return false
+		}
+		switch p.calleeName(&c.Call) {
+		case "os.OpenFile":
+			fl, okc := constInt(c.Call.Args[1])
+			return okc && fl&oExcl != 0 && fl&oCreate != 0
+		case "MemfdCreate", "golang.org/x/sys/unix.MemfdCreate":
+			return true
+		}
+		return false
+	}
+	mMmap := p.mCall("syscall.Mmap", "golang.org/x/sys/unix.Mmap")
+	n := 0
+	for _, f := range p.fnList {
+		if len(findInstrs(f, mMmap)) == 0 || !p.may(f, mCreator, 3) {
+			continue
+		}
+		fn := p.fname(f)
+		r.Scope[fn] = true
+		n++
+		mFresh := M{ID: "exclusive-create", F: fresh}
+		ok, res := p.findBadPath(f, []Point{{f.Blocks[0], -1}}, pathOpts{
+			// a local helper that creates exclusively on all of its paths counts (its error exits return before the creator here)
+			Discharge: func(in ssa.Instruction) bool { return p.evMust(in, mFresh, 2) },
+			Bad: func(in ssa.Instruction) bool {
+				if _, isCall := in.(*ssa.Call); !isCall {
+					return false
+				}
+				return p.evMay(in, mCreator, 3)
+			},
+		})
+		r.ob("R01.12", fn+": the free lists are created only in a backing object this call created exclusively (O_CREATE|O_EXCL file or fresh memfd)", p.pos(f.Pos()), ok, true,
+			"a creator run on a region that is already in use re-issues every held buffer: %s", p.pathString(res))
+	}
+	r.count("R01.12", "functions that map memory and create free lists in it", n, 2)
 }
